@@ -26,6 +26,7 @@ RULE = ('Hypothesis-generated produce calls (topic bytes 1-200, partition any in
         'each delivered to the request with the same correlation id. Non-trivial = >= 2 payloads with one empty or > 64 kB, '
         'or >= 2 concurrent requests answered out of order. distinct = distinct non-trivial plans.')
 ASSUMPTIONS = [
+    'reply bytes arrive in drawn fragments (whole, single bytes, drawn sizes); requests are written with one sendall',
     'topics and payloads are bytes (as in the repository\'s test)',
     'the message carries the KafkaEndpoint the heap balancer would stamp on it',
 ]
@@ -64,6 +65,9 @@ def strategy(tier):
       'requests': st.lists(req, min_size=1, max_size=5),
       'order': st.permutations([0, 1, 2, 3, 4]),
       'metadata': st.one_of(st.none(), meta),
+      # how the reply byte stream is split across socket reads
+      'chunks': st.one_of(st.none(), st.just('bytes'), st.lists(st.integers(1, 9), min_size=1, max_size=5),
+                          st.lists(st.sampled_from([1, 3, 4, 5, 64, 1000]), min_size=1, max_size=4)),
   })
 
 
@@ -88,6 +92,14 @@ def execute(plan):
   with World(seed=0):
     net = SimNet()
     net.install()
+    ch = plan.get('chunks')
+    if ch:
+      nt_reads = {'i': 0}
+
+      def chunker(sock, avail, want):
+        nt_reads['i'] += 1
+        return 1 if ch == 'bytes' else ch[nt_reads['i'] % len(ch)]
+      net.chunker = chunker
     peer = KafkaPeer()
     Server(net, ('127.0.0.1', PORT), peer)
     ser = KafkaSerializerSink.Builder()
@@ -220,4 +232,5 @@ def execute(plan):
     sink.Close()
     settle()
   return Outcome(nontrivial=sorted(nt) or None, classes=sorted(nt) + ['requests=%d' % len(plan['requests'])] +
-                 (['metadata'] if plan['metadata'] is not None else []))
+                 (['metadata'] if plan['metadata'] is not None else []) +
+                 (['replies_split_across_reads'] if plan.get('chunks') else []))
